@@ -39,7 +39,8 @@ func ruleC09_4(c *Ctx) {
 			h.opaque[o] = true
 		}
 	})
-	fr := run.fr
+	// the frame that holds the form-selection loop: Reset itself, or a helper it was moved into
+	fr, reset := paletteFrame(run, reset)
 	palKey := "$param:palette"
 	cf := cfgx.New(reset, nil)
 
@@ -375,7 +376,7 @@ func (c *Ctx) paletteFlags() *paletteFlagModel {
 		}
 	})
 	pm.run = run
-	fr := run.fr
+	fr, reset := paletteFrame(run, reset)
 	for _, h := range fr.Headers() {
 		for _, ins := range reset.Blocks[h].Instrs {
 			phi, ok := ins.(*ssa.Phi)
@@ -497,4 +498,33 @@ func loopRangeKey(li *sym.LoopInfo) (string, bool) {
 	}
 	// the loop tests index+Offset against the bound: the element index is phi+Offset as well (IndexVal)
 	return fmt.Sprintf("%d..%s", i0+li.Offset, b.String()), true
+}
+
+// paletteFrame returns the frame (and its function) in which the palette form selection happens: the first frame of
+// the run, Reset's own or an inlined helper's, that has a loop-carried boolean starting as true.
+func paletteFrame(run *encRun, reset *ssa.Function) (*sym.Frame, *ssa.Function) {
+	frames := append([]*sym.Frame{run.fr}, collectFrames(run.in.Events)...)
+	for _, f := range frames {
+		for _, h := range f.Headers() {
+			for _, ins := range f.Fn.Blocks[h].Instrs {
+				phi, ok := ins.(*ssa.Phi)
+				if !ok {
+					break
+				}
+				if b, isB := phi.Type().Underlying().(*types.Basic); !isB || b.Kind() != types.Bool {
+					continue
+				}
+				if v := f.Val(phi); v == nil || v.Op != "atom" {
+					continue
+				}
+				init, _ := phiEdges(f, phi)
+				if len(init) == 1 {
+					if bv, isC := init[0].BoolVal(); isC && bv {
+						return f, f.Fn
+					}
+				}
+			}
+		}
+	}
+	return run.fr, reset
 }
